@@ -49,7 +49,9 @@ class Holder:
             src = "\n".join(lines)
         t = self.tag
         return (f"{src}\ntypedef {n} {t}_td;\nstruct {t} {{ char pre; {n} m; int after; {n} *p; {n} arr[2]; {t}_td td; }};\n"
-                f"{n} *{t}_f({n} *a, const {n} *b);\nextern {n} *{t}_gp;")
+                f"{n} *{t}_f({n} *a, const {n} *b);\nextern {n} *{t}_gp;\n"
+                # later items that refer to the HOLDER (it is then queued more than once by the analyses)
+                f"struct {t}_outer {{ struct {t} held; int z; }};\nstruct {t} *{t}_again(struct {t}_outer *o);")
 
 
 def family(tier, seed):
@@ -217,7 +219,7 @@ CXX_INNER = r"""
 struct Inner { int a; double d; char c; };
 struct Big { char buf[24]; long double ld; };
 struct WithBits { unsigned a:3; unsigned b:9; int k; };
-class Poly { public: virtual ~Poly(); virtual int f(); int v; };
+class Poly { public: virtual ~Poly(); virtual int f(); long v; };  // no tail padding: a derived class cannot reuse any (bindgen does not model that, C02 territory)
 namespace stdlike { template <typename T> struct vec { T *b; T *e; T *c; }; struct text { char *p; unsigned long n; char sso[16]; }; }
 """
 CXX_MAIN = r"""
@@ -229,11 +231,15 @@ template <typename T> struct Wrap { T t; int n; };
 struct UsesT { char pre; Wrap<Inner> w; Wrap<Big> wb; Inner arr[2]; Inner *p; int after; };
 struct UsesStd { char pre; stdlike::vec<int> v; stdlike::text s; stdlike::vec<Inner> vi; int tail; };
 struct HoldsPoly { char pre; Poly *pp; int after; };
+struct DerivedP : Poly { virtual int g(); int w; };
+struct DerivedP2 : Poly { int only_data; };
+struct HoldsDP { char pre; DerivedP d; DerivedP2 d2; int tail; };
 int use_all(Inner *i, const Big &b, stdlike::text *s, WithBits w);
 """
 # container -> probed members (Rust name == C++ name)
 CXX_CONTAINERS = {"DerivedI": ["x"], "DerivedB": ["y"], "DerivedW": ["z"], "UsesT": ["pre", "w", "wb", "arr", "p", "after"],
-                  "UsesStd": ["pre", "v", "s", "vi", "tail"], "HoldsPoly": ["pre", "pp", "after"]}
+                  "UsesStd": ["pre", "v", "s", "vi", "tail"], "HoldsPoly": ["pre", "pp", "after"],
+                  "DerivedP": ["w"], "DerivedP2": ["only_data"], "HoldsDP": ["pre", "d", "d2", "tail"]}
 CXX_INNERS = {"Inner": "Inner", "Big": "Big", "WithBits": "WithBits", "Poly": "Poly", "stdlike_text": "stdlike::text"}
 STANDINS = {"Inner": "#[repr(C, align(8))] pub struct Inner(pub [u8; 24]);", "Big": "#[repr(C, align(16))] pub struct Big(pub [u8; 48]);",
             "WithBits": "#[repr(C, align(4))] pub struct WithBits(pub [u8; 8]);", "Poly": "#[repr(C, align(8))] pub struct Poly(pub [u8; 16]);",
